@@ -117,6 +117,10 @@ func checkC05(c *Ctx) {
 	// ---- SENTINEL over package tree (+ fixture control)
 	ns := c.sentinelScan([]*packages.Package{tree}, true)
 	c.Extra["presence_tests"] = ns
+	c.Decides("COLLECT-ALL: loops of package tree that collect a result per requested name/tip (the outgroup names of LeastCommonAncestorUnrooted included) do not leave with a silent break: every requested name is looked at")
+	nca, _ := c.collectAll("COLLECT-ALL", c.AllFuncs("tree"), "the outgroup is exactly one of the two root clades")
+	c.Extra["collecting_loops_over_parameters"] = nca
+	c.Floor("COLLECT-ALL", 3)
 	c.Decides("OPT-OWN: no command (reroot outgroup --strict included) reads another command's option storage while leaving an own option of the same type unread (the option the user gives would be ignored)")
 	ncm, _ := c.optOwn("OPT-OWN", "a non-monophyletic outgroup is refused in strict mode")
 	if ncm < 80 {
